@@ -184,8 +184,6 @@ VF_E void x_unique(it const& f, it const& l, it* o) { *o = etl::unique(f, l); }
 VF_E void x_unique_copy(it const& f, it const& l, it const& d, it* o) { *o = etl::unique_copy(f, l, d); }
 VF_E void x_partial_sum(uit const& f, uit const& l, uit const& d, uit* o) { *o = etl::partial_sum(f, l, d); }
 VF_E void x_adjacent_difference(uit const& f, uit const& l, uit const& d, uit* o) { *o = etl::adjacent_difference(f, l, d); }
-struct pxx { it a; it b; };
-VF_E void x_min_element(it const& f, it const& l, it* o) { *o = etl::min_element(f, l); }
 VF_E long g_min_element(long f, long l) { return etl::min_element(git{f}, git{l}).i; }
 VF_E long g_max_element(long f, long l) { return etl::max_element(git{f}, git{l}).i; }
 VF_E long g_lower_bound(long f, long l, int const& v) { return etl::lower_bound(git{f}, git{l}, v).i; }
@@ -193,15 +191,7 @@ VF_E long g_upper_bound(long f, long l, int const& v) { return etl::upper_bound(
 VF_E bool g_binary_search(long f, long l, int const& v) { return etl::binary_search(git{f}, git{l}, v); }
 VF_E void g_equal_range(long f, long l, int const& v, long* a, long* b) { auto r = etl::equal_range(git{f}, git{l}, v); *a = r.first.i; *b = r.second.i; }
 VF_E void g_minmax_element(long f, long l, long* a, long* b) { auto r = etl::minmax_element(git{f}, git{l}); *a = r.first.i; *b = r.second.i; }
-VF_E long g_is_sorted_until(long f, long l) { return etl::is_sorted_until(git{f}, git{l}).i; }
 VF_E long g_max_element_gt(long f, long l) { return etl::max_element(git{f}, git{l}, etl::greater()).i; }
-VF_E void x_max_element(it const& f, it const& l, it* o) { *o = etl::max_element(f, l); }
-VF_E void x_max_element_gt(it const& f, it const& l, it* o) { *o = etl::max_element(f, l, etl::greater()); }
-VF_E void x_minmax_element(it const& f, it const& l, pxx* o) { auto r = etl::minmax_element(f, l); o->a = r.first; o->b = r.second; }
 VF_E bool x_is_partitioned(it const& f, it const& l) { return etl::is_partitioned(f, l, pred3{}); }
-VF_E void x_lower_bound(it const& f, it const& l, int const& v, it* o) { *o = etl::lower_bound(f, l, v); }
-VF_E void x_upper_bound(it const& f, it const& l, int const& v, it* o) { *o = etl::upper_bound(f, l, v); }
-VF_E bool x_binary_search(it const& f, it const& l, int const& v) { return etl::binary_search(f, l, v); }
-VF_E void x_equal_range(it const& f, it const& l, int const& v, pxx* o) { auto r = etl::equal_range(f, l, v); o->a = r.first; o->b = r.second; }
 VF_E void x_iota(uit const& f, uit const& l, uint v) { etl::iota(f, l, v); }
 } // namespace vf
